@@ -10,9 +10,9 @@ git -C /repo worktree add -q --detach "$wt" HEAD || exit 2
 if ! git -C "$wt" apply "$patch"; then echo "patch does not apply"; git -C /repo worktree remove --force "$wt"; exit 2; fi
 cd /verif
 for p in "$@"; do
-  VERIF_REPO="$wt" ./check "$p" ${SEED_TIER:+--tier $SEED_TIER} > "/tmp/seedrun_$p.out" 2>&1
+  VERIF_REPO="$wt" ./check "$p" ${SEED_TIER:+--tier $SEED_TIER} > "$wt.$p.out" 2>&1
   rc=$?
-  echo "== $p rc=$rc"; grep -E '^(VIOLATION|KNOWN-FINDING|check broken)' "/tmp/seedrun_$p.out" | cut -c1-300
+  echo "== $p rc=$rc"; grep -E '^(VIOLATION|KNOWN-FINDING|check broken)' "$wt.$p.out" | cut -c1-300; rm -f "$wt.$p.out"
 done
 git -C /repo worktree remove --force "$wt"
 # restore facts generated from the unchanged tree
